@@ -85,6 +85,7 @@ func (g *got) last() int {
 }
 
 type client struct {
+	cut   func() // WSP: cut the data socket only (the control socket stays): the server's next media write fails
 	name  string
 	proto string // "rtp" (whole RTP packets are compared) | "flv" (the media payload inside the tag is compared)
 	g     *got
@@ -323,7 +324,12 @@ func wspClient(t *testing.T, addr, path string) *client {
 			}
 		}
 	}()
-	return &client{name: "wsp", proto: "rtp", g: g, stop: func() { ctl.Close(); data.Close() }}
+	return &client{name: "wsp", proto: "rtp", g: g, stop: func() { ctl.Close(); data.Close() }, cut: func() {
+		if tc, ok := data.C.(*net.TCPConn); ok {
+			tc.SetLinger(0) // reset, not an orderly close
+		}
+		data.Close()
+	}}
 }
 
 // flvTags splits an FLV byte stream into tags and records the media payloads.
@@ -477,11 +483,13 @@ func TestTransports(t *testing.T) {
 				})
 			}
 			publish(rtp.ChannelVideoControl, 0, 0, nil)
-			time.Sleep(2 * time.Millisecond)
+			if g < 5 || g%8 == 0 { // later on in bursts: the delivery goroutines of the players run side by side
+				time.Sleep(2 * time.Millisecond)
+			}
 		}
 		var clients []*client
-		early := []func(*testing.T, string, string) *client{tcpClient, udpClient, wsrtspClient, httpflvClient}
-		late := []func(*testing.T, string, string) *client{wspClient, wsflvClient, tcpClient}
+		early := []func(*testing.T, string, string) *client{tcpClient, udpClient, wsrtspClient, httpflvClient, wspClient}
+		late := []func(*testing.T, string, string) *client{wspClient, wsflvClient, tcpClient, wspClient}
 		for _, mk := range early {
 			clients = append(clients, mk(t, srv.Addr, path))
 		}
@@ -491,14 +499,19 @@ func TestTransports(t *testing.T) {
 		}
 		for _, mk := range late { // attach in mid stream
 			c := mk(t, srv.Addr, path)
-			c.name += "-late"
+			c.name = fmt.Sprintf("%s%d-late", c.name, len(clients))
 			clients = append(clients, c)
 		}
 		gop(4)
 		leaver := clients[0] // the first TCP client leaves early; the others must not notice
 		leftAt := n
 		leaver.stop()
-		for g := 5; g < 9; g++ {
+		// the early WSP player vanishes without a word (browser tab closed): its sockets are just cut
+		dropper := clients[4]
+		dropper.name = "wsp-drop"
+		dropAt := n
+		dropper.cut()
+		for g := 5; g < 85; g++ {
 			gop(g)
 		}
 		last := n
@@ -506,7 +519,7 @@ func TestTransports(t *testing.T) {
 		// otherwise it waits in the connection's buffer for the next write.  A live publisher keeps writing; so does this
 		// one for a moment - the trailer is not part of what is judged.
 		for k := 0; k < 30; k++ {
-			publish(rtp.ChannelVideo, 96, 9*90000+uint32(k+1)*3000, func(id string) []byte {
+			publish(rtp.ChannelVideo, 96, 85*90000+uint32(k+1)*3000, func(id string) []byte {
 				return append([]byte{0x41}, []byte(id+strings.Repeat("t", 900))...)
 			})
 			time.Sleep(8 * time.Millisecond)
@@ -514,7 +527,10 @@ func TestTransports(t *testing.T) {
 		deadline := time.Now().Add(5 * time.Second)
 		for time.Now().Before(deadline) {
 			ok := true
-			for _, c := range clients[1:] {
+			for ci, c := range clients[1:] {
+				if ci+1 == 4 {
+					continue // the dropped WSP player
+				}
 				want := last
 				if c.proto == "flv" {
 					want = last - 1 // the last judged packet is RTCP
@@ -540,6 +556,9 @@ func TestTransports(t *testing.T) {
 			upto := last
 			if i == 0 {
 				upto = leftAt
+			}
+			if i == 4 {
+				upto = dropAt
 			}
 			out.Put(map[string]interface{}{"t": round, "e": "client", "c": c.name, "proto": c.proto, "left_at": upto, "items": c.g.items()})
 			total += len(c.g.seq)
